@@ -272,6 +272,131 @@ fn c08_check(v: &Clean, rep: &mut Rep) -> Result<(), String> {
     Ok(())
 }
 
+// ----------------------------------------------------------------------------- real traces from the repository
+#[derive(Clone, Debug, serde::Serialize, serde::Deserialize)]
+pub enum TOp {
+    Drop(u16, u16),
+    Swap(u16, u16, u16),
+    ShiftTime(u16, u16, i32),
+    ZeroTs(u16, u16),
+    OtherEcu(u16, u16),
+}
+type RepoCase = (u16, u16, u16, Vec<TOp>);
+
+fn repo_pool() -> &'static Vec<Vec<DltMessage>> {
+    static P: std::sync::OnceLock<Vec<Vec<DltMessage>>> = std::sync::OnceLock::new();
+    P.get_or_init(|| {
+        let mut v = vec![];
+        let mut names: Vec<_> = std::fs::read_dir(crate::chain::repo_tests()).map(|rd| rd.flatten().map(|e| e.path()).collect()).unwrap_or_default();
+        names.sort();
+        for p in names {
+            if p.extension().and_then(|e| e.to_str()) == Some("dlt") {
+                if let Ok(data) = std::fs::read(&p) {
+                    let m: Vec<DltMessage> = adlt::utils::DltMessageIterator::new(0, std::io::Cursor::new(data)).take(30_000).collect();
+                    if m.len() > 10 {
+                        v.push(m);
+                    }
+                }
+            }
+        }
+        v
+    })
+}
+
+fn repo_msgs(c: &RepoCase) -> Vec<DltMessage> {
+    let pool = repo_pool();
+    if pool.is_empty() {
+        return vec![];
+    }
+    let f = &pool[(c.0 as usize * pool.len()) >> 16];
+    let len = 1 + (c.2 as usize % 3000);
+    let start = (c.1 as usize * f.len().saturating_sub(len).max(1)) >> 16;
+    let mut m: Vec<DltMessage> = f[start..std::cmp::min(f.len(), start + len)].to_vec();
+    for op in &c.3 {
+        let n = m.len();
+        if n < 4 {
+            break;
+        }
+        let pos = |p: u16| (p as usize * n) >> 16;
+        match op {
+            TOp::Drop(a, l) => {
+                let s = pos(*a);
+                let e = std::cmp::min(n, s + (*l as usize % 200));
+                m.drain(s..e);
+            }
+            TOp::Swap(a, b, l) => {
+                let l = 1 + (*l as usize % 50);
+                let (x, y) = (pos(*a), pos(*b));
+                let (x, y) = (std::cmp::min(x, y), std::cmp::max(x, y));
+                if x + l <= y && y + l <= n {
+                    for k in 0..l {
+                        m.swap(x + k, y + k);
+                    }
+                }
+            }
+            TOp::ShiftTime(a, l, d) => {
+                let s = pos(*a);
+                let e = std::cmp::min(n, s + (*l as usize % 500));
+                for x in &mut m[s..e] {
+                    x.reception_time_us = (x.reception_time_us as i64 + *d as i64 * 1000).max(1) as u64;
+                }
+            }
+            TOp::ZeroTs(a, l) => {
+                let s = pos(*a);
+                let e = std::cmp::min(n, s + (*l as usize % 20));
+                for x in &mut m[s..e] {
+                    x.timestamp_dms = 0;
+                }
+            }
+            TOp::OtherEcu(a, l) => {
+                let s = pos(*a);
+                let e = std::cmp::min(n, s + (*l as usize % 300));
+                for x in &mut m[s..e] {
+                    x.ecu = ecu_name(7);
+                }
+            }
+        }
+    }
+    for (i, x) in m.iter_mut().enumerate() {
+        x.index = i as u32;
+        x.lifecycle = 0;
+    }
+    m
+}
+
+fn repo_strategy() -> impl Strategy<Value = RepoCase> {
+    let op = prop_oneof![
+        (any::<u16>(), any::<u16>()).prop_map(|(a, b)| TOp::Drop(a, b)),
+        (any::<u16>(), any::<u16>(), any::<u16>()).prop_map(|(a, b, c)| TOp::Swap(a, b, c)),
+        (any::<u16>(), any::<u16>(), prop_oneof![-100_000i32..100_000, -5_000i32..5_000]).prop_map(|(a, b, c)| TOp::ShiftTime(a, b, c)),
+        (any::<u16>(), any::<u16>()).prop_map(|(a, b)| TOp::ZeroTs(a, b)),
+        (any::<u16>(), any::<u16>()).prop_map(|(a, b)| TOp::OtherEcu(a, b)),
+    ];
+    (any::<u16>(), any::<u16>(), any::<u16>(), prop::collection::vec(op, 0..6))
+}
+
+/// C05 + C06 + C07 invariants on (perturbed) windows of the repository's example traces
+fn repo_traces(c: &RepoCase, rep: &mut Rep) -> Result<(), String> {
+    if repo_pool().is_empty() {
+        return Err("harness: no repository traces found".into());
+    }
+    let msgs = repo_msgs(c);
+    if msgs.is_empty() {
+        rep.label("all_dropped");
+        return Ok(());
+    }
+    let n = msgs.len();
+    let (res, _r, _w) = run_detector(msgs.clone(), &DetOpts { cross_thread: false, paced: false, want_listing: true }, None);
+    let (_m, merged) = common_labels(&res, rep);
+    rep.label_if(!c.3.is_empty(), "perturbed");
+    rep.nontrivial = res.table.len() >= 2 || merged;
+    c05_invariants(&msgs, &res)?;
+    for (i, m) in res.out.iter().enumerate() {
+        ensure!(res.vis_same[i], "message #{} delivered with lifecycle {} not visible at delivery time", i, m.lifecycle);
+    }
+    c07_invariants(&res, n)
+}
+
 // ----------------------------------------------------------------------------- defs
 const MESSY_RULE: &str = "M-TRACE-MESSY: 1..3 ECUs interleaved, events with reception deltas (mostly >=0, 10% negative, up to 200 s), timestamp modes {continue, reboot, 0, arbitrary, buffered-older <=70 s}, kinds {log, control request, no timestamp, control responses (sw version / odd bodies)}; short (1..40) and long (up to 400) streams; ";
 
@@ -284,6 +409,7 @@ pub fn c05(tier: Tier) -> PropertyDef {
             sub("messy_short", tier.pick(400_000, 6_000_000), messy(3, 40), c05_check).rates(&[("merge_happened", 0.02), ("ge2_lifecycles_one_ecu", 0.3), ("held_back_observed", 0.03)]).boxed(),
             sub("messy_long", tier.pick(20_000, 300_000), messy(3, 400), c05_check).rates(&[("merge_happened", 0.2)]).boxed(),
             sub("prepopulated", tier.pick(100_000, 1_500_000), (prop::collection::vec(ev(3), 2..80), any::<u16>()), c05_prepop).rates(&[("prepopulated_ge2", 0.2)]).boxed(),
+            sub("repo_traces", tier.pick(3_000, 60_000), repo_strategy(), repo_traces).rates(&[("perturbed", 0.5)]).shrink_iters(200).boxed(),
         ],
         workers: 16,
     }
@@ -310,6 +436,7 @@ pub fn c07(tier: Tier) -> PropertyDef {
             sub("table_short", tier.pick(600_000, 8_000_000), messy(3, 40), c07_check).rates(&[("merge_happened", 0.02), ("has_resume", 0.02)]).boxed(),
             sub("table_long", tier.pick(40_000, 500_000), messy(2, 400), c07_check).rates(&[("gt20_lifecycles", 0.2), ("has_resume", 0.2), ("resume_start_le_origin_start", 0.02)]).boxed(),
             crate::props::binsubs::c07_sub(tier),
+            sub("repo_traces", tier.pick(3_000, 60_000), repo_strategy(), repo_traces).rates(&[("perturbed", 0.5)]).shrink_iters(200).boxed(),
         ],
         workers: 16,
     }
